@@ -331,7 +331,9 @@ def c12(pid, tier, replay):
         # multi-byte characters (plain and escaped) at every offset of a few specifications
         lbases = ["%%\na 'x'\n[ ]+ ;\n", "%x S\n%%\n<S>a+ <INITIAL>'t'\nb\\  \"u\"\n"] + \
                  [genlex.render_lsrc(genlex.gen_lsrc(rng), rng)[0] for _ in range(4 if thorough else 1)]
-        ybases = ["%start S\n%token a\n%%\nS: a 'b' { $1 } | ;\n"] + [genyacc.render(genyacc.gen_doc(rng), rng)[0] for _ in range(4 if thorough else 1)]
+        ybases = ["%start S\n%token a\n%%\nS: a 'b' { $1 } | ;\n",
+                  # every kind of declaration once, so that each scanner meets a multi-byte character
+                  "%start S\n%token a \"q\"\n%epp a \"an a\"\n%expect 0\n%avoid_insert a\n%left 'b'\n%parse-param p: u8\n%%\nS -> u8: a 'b' \"q\" %prec 'b' { $1 } | ;\n%%\nfn x() {}\n"] + [genyacc.render(genyacc.gen_doc(rng), rng)[0] for _ in range(4 if thorough else 1)]
         for base, entry in [(b, "lex") for b in lbases] + [(b, "yacc_grmtools") for b in ybases] + [(HEADERS[2], "header")]:
             for ch in ["é", "\u200e", "\\\u0085", "\\\u200f", "\U0001F600"]:
                 for i in range(len(base) + 1):
